@@ -217,7 +217,7 @@ Theorem nft_zone_complete_gen : forall f z prev t,
 Proof.
   intros f z prev t Hwf Hz FA REP Hp Ht Hmod [c [Ec Hm]] Hfresh.
   pose proof (nft_zone_total f Hwf z Hz prev Hp) as Htot.
-  unfold next_fire_time_zone in *. rewrite quot_nanos in * by lia.
+  unfold next_fire_time_zone in *.
   unfold max_nanos in Hp, Ht. change Params.max_int64 with 9223372036854775807 in Hp, Ht.
   assert (Hps : 0 <= prev / nanos <= 9223372036) by (unfold nanos; lia).
   destruct (civil_from_unix_total _ _ (Hz (prev / nanos)) Hps) as [w0 E0]. rewrite E0 in *.
